@@ -55,7 +55,19 @@ func runC08(ctx *core.Ctx) {
 }
 
 func execC08(ctx *core.Ctx, c *evCase) {
-	onTime, _ := evOnTime(c.Rows, c.MooMs)
+	onTime, wmAt := evOnTime(c.Rows, c.MooMs)
+	// rows that are too late by every reading of the rules: older than the watermark on arrival AND every
+	// interval covering them had already ended at or before that watermark (ALLOWEDLATENESS is 0 here).  They
+	// must be aggregated nowhere, however closely they follow the row that advanced the watermark.
+	tooLate := map[int]int64{}
+	for i, r := range c.Rows {
+		if !onTime[i] && r.G == "" {
+			lastStart := floorDiv(r.TS, c.SlideMs) * c.SlideMs
+			if lastStart+c.SizeMs <= wmAt[i] {
+				tooLate[r.ID] = wmAt[i]
+			}
+		}
+	}
 	byID := map[int]evRow{}
 	minAcc := int64(1 << 62)
 	nLate := 0
@@ -122,6 +134,7 @@ func execC08(ctx *core.Ctx, c *evCase) {
 		return
 	}
 	ctx.Count("deliveries_checked", int64(len(res.Dels)))
+	ctx.Count("too_late_rows_watched", int64(len(tooLate)))
 	ctx.Count("result_rows_checked", int64(len(wins)))
 	type gk struct {
 		s int64
@@ -181,6 +194,10 @@ func execC08(ctx *core.Ctx, c *evCase) {
 			r := byID[id]
 			if r.TS < w.Start || r.TS >= w.End {
 				viol("sliding.wrong_interval", fmt.Sprintf("row id=%d ts=%d reported in [%d,%d) which does not cover it", id, r.TS, w.Start, w.End))
+				return
+			}
+			if wm, late := tooLate[id]; late {
+				viol("sliding.too_late_row_aggregated", fmt.Sprintf("row id=%d ts=%d arrived when the watermark was already %d: every interval covering it had ended, yet it is aggregated in [%d,%d) (witness %v, Emit calls started at delivery: %d)", id, r.TS, wm, w.Start, w.End, got, w.Start0))
 				return
 			}
 			if tkey(c.keyOf(r)) != g {
